@@ -28,6 +28,17 @@ package scen
 //	          mixed-crawl-result                  "one single completed crawl" under a concurrent swap
 //	          stat-vs-crawl                       the table is the set of peers the crawl reported
 //	          op-panic, op-hang, ctor-*, bulk-empty-table-panic   "return an error rather than panic or hang"
+//
+// "One single completed crawl" covers the address assignment as well as the
+// peer set (quantifier: "for every crawled peer set and address assignment"):
+// the IP groups of ip-group-limit, gcp-nearest and mixed-crawl-result are those
+// of the addresses the judged crawl found its peers at (c16Crawl.Addrs, a
+// snapshot per crawl). With the stub crawler a crawled peer may be found at
+// other addresses - in another IP group - by the next crawl (drawn choice
+// "addr-moves"); a result judged against crawl i must then respect the limit,
+// and be exactly the K nearest where the precondition holds, under crawl i's
+// assignment, whatever earlier crawls and earlier look-ups saw. No rule id is
+// new: the same clauses are evaluated, the generated space is wider.
 
 import (
 	"context"
@@ -156,6 +167,31 @@ func c16Groups(addrs []ma.Multiaddr) []string {
 // maxPerGroup peers (so a diversity limit >= maxPerGroup can never bite);
 // with maxPerGroup <= 0 groups are crowded on purpose.
 func c16AssignAddrs(u *simnet.Universe, rng *subRng, maxPerGroup int) {
+	c16AssignSome(u, rng, maxPerGroup, nil)
+}
+
+// c16MoveAddrs gives every peer for which move(i) holds new addresses, drawn
+// like the initial ones (the peer changed its network: other address count,
+// other IP groups); the other peers keep theirs. The maxPerGroup guarantee of
+// c16AssignAddrs holds for the resulting assignment as a whole. It returns the
+// number of peers whose set of IP groups changed.
+func c16MoveAddrs(u *simnet.Universe, rng *subRng, maxPerGroup int, move func(i int) bool) int {
+	before := make([]string, len(u.Peers))
+	for i, p := range u.Peers {
+		before[i] = strings.Join(c16Groups(p.Addrs), "|")
+	}
+	c16AssignSome(u, rng, maxPerGroup, move)
+	changed := 0
+	for i, p := range u.Peers {
+		if strings.Join(c16Groups(p.Addrs), "|") != before[i] {
+			changed++
+		}
+	}
+	return changed
+}
+
+// c16AssignSome assigns new addresses to the peers selected by move (nil: all).
+func c16AssignSome(u *simnet.Universe, rng *subRng, maxPerGroup int, move func(i int) bool) {
 	v4first := []int{8, 45, 101, 12 /* legacy class A: grouped by /8 */}
 	v6pfx := []string{"2001:4860", "2606:4700", "2a02:6b8", "2a0e:b107", "2003:e1"}
 	spread := len(u.Peers) + 2
@@ -163,7 +199,20 @@ func c16AssignAddrs(u *simnet.Universe, rng *subRng, maxPerGroup int) {
 		spread = 2
 	}
 	count := map[string]int{}
+	moves := make([]bool, len(u.Peers))
 	for i, p := range u.Peers {
+		moves[i] = move == nil || move(i)
+		if !moves[i] {
+			// stays where it is: its groups are taken
+			for _, g := range c16Groups(p.Addrs) {
+				count[g]++
+			}
+		}
+	}
+	for i, p := range u.Peers {
+		if !moves[i] {
+			continue
+		}
 		n := 1
 		if rng.Intn(3) == 0 {
 			n++
@@ -215,16 +264,38 @@ func c16AssignAddrs(u *simnet.Universe, rng *subRng, maxPerGroup int) {
 // ---------------------------------------------------------------------------
 // GetClosestPeers oracle
 
-// c16Crawl is the outcome of one completed crawl: the peers it found.
+// c16Crawl is the outcome of one completed crawl: the peers it found and the
+// addresses it found them at.
 type c16Crawl struct {
 	Idx   int
 	Peers []*simnet.Peer
+	// Addrs is the address assignment of this crawl: what the host's peerstore
+	// held for each found peer when the crawl reported it. nil: the peers'
+	// addresses never change during the run, simnet.Peer.Addrs is the assignment.
+	Addrs map[peer.ID][]ma.Multiaddr
+}
+
+// newC16Crawl snapshots the current addresses of the found peers.
+func newC16Crawl(idx int, found []*simnet.Peer) *c16Crawl {
+	c := &c16Crawl{Idx: idx, Peers: found, Addrs: map[peer.ID][]ma.Multiaddr{}}
+	for _, p := range found {
+		c.Addrs[p.ID] = append([]ma.Multiaddr(nil), p.Addrs...)
+	}
+	return c
+}
+
+// addrsOf returns the addresses this crawl found p at.
+func (c *c16Crawl) addrsOf(p *simnet.Peer) []ma.Multiaddr {
+	if c.Addrs != nil {
+		return c.Addrs[p.ID]
+	}
+	return p.Addrs
 }
 
 func (c *c16Crawl) maxGroup() (string, int) {
 	cnt := map[string]int{}
 	for _, p := range c.Peers {
-		for _, g := range c16Groups(p.Addrs) {
+		for _, g := range c16Groups(c.addrsOf(p)) {
 			cnt[g]++
 		}
 	}
@@ -286,7 +357,7 @@ func c16JudgeGCP(u *simnet.Universe, res []peer.ID, key simnet.Kad, K, L int, c 
 	if L > 0 {
 		cnt := map[string]int{}
 		for _, p := range res {
-			for _, g := range c16Groups(in[p].Addrs) {
+			for _, g := range c16Groups(c.addrsOf(in[p])) {
 				cnt[g]++
 			}
 		}
@@ -317,7 +388,7 @@ func c16JudgeGCP(u *simnet.Universe, res []peer.ID, key simnet.Kad, K, L int, c 
 				}
 				dupG := ""
 				seenG := map[string]bool{}
-				for _, a := range in[m].Addrs {
+				for _, a := range c.addrsOf(in[m]) {
 					for _, ag := range c16Groups([]ma.Multiaddr{a}) {
 						if seenG[ag] && dupG == "" {
 							dupG = ag
@@ -841,6 +912,10 @@ func (o *crawlObs) summary(u *simnet.Universe) string {
 type crawlSpec struct {
 	OK   []*simnet.Peer
 	Fail []*simnet.Peer
+	// Addrs (optional): the addresses this crawl finds the OK peers at; they
+	// REPLACE what the host's peerstore holds for the peer (the peer is found at
+	// its current addresses only). nil: simnet.Peer.Addrs are added, as before.
+	Addrs map[peer.ID][]ma.Multiaddr
 }
 
 type stubCall struct {
@@ -854,7 +929,9 @@ type stubCall struct {
 // chosen by the scenario, then parks again before returning - so that both
 // "the crawl reports" and "Run returns, the swap begins" are scheduler
 // decisions. A reported peer gets its harness-assigned addresses in the host's
-// peerstore and a connection, which is what a real crawl leaves behind.
+// peerstore (with crawlSpec.Addrs: instead of whatever the peerstore held for
+// it, so the crawl finds the peer at exactly these addresses) and a
+// connection, which is what a real crawl leaves behind.
 type stubCrawler struct {
 	S *sim.Sim
 	H *simhost.Host
@@ -882,7 +959,12 @@ func (c *stubCrawler) Run(ctx context.Context, seeds []*peer.AddrInfo, ok crawle
 		return
 	}
 	for _, p := range spec.OK {
-		c.H.Peerstore().AddAddrs(p.ID, p.Addrs, peerstore.PermanentAddrTTL)
+		if spec.Addrs != nil {
+			c.H.Peerstore().ClearAddrs(p.ID)
+			c.H.Peerstore().AddAddrs(p.ID, spec.Addrs[p.ID], peerstore.PermanentAddrTTL)
+		} else {
+			c.H.Peerstore().AddAddrs(p.ID, p.Addrs, peerstore.PermanentAddrTTL)
+		}
 		c.H.Net().SetConnected(p.ID, true)
 		ok(p.ID, nil)
 	}
